@@ -330,8 +330,55 @@ def _fold_block(block, later_reads):
             if isinstance(st, (ast.For, ast.While, ast.If, ast.Try, ast.With)) and \
                     _mentions(st, L):
                 folded.discard(L)
+            elif _escapes(st, L):
+                folded.discard(L)
+        # a fresh list display bound to a local has explicit content too
+        if isinstance(st, ast.Assign) and len(st.targets) == 1 and \
+                isinstance(st.targets[0], ast.Name) and isinstance(st.value, ast.List) \
+                and st.value.elts and not any(isinstance(e, ast.Starred)
+                                              for e in st.value.elts) \
+                and not _mentions(st.value, st.targets[0].id):
+            folded.add(st.targets[0].id)
         i += 1
     return changed
+
+
+_NO_ALIAS_CALLS = ('tuple', 'list', 'len', 'set', 'frozenset', 'sorted', 'reversed',
+                   'iter', 'any', 'all', 'enumerate', 'zip', 'bool')
+
+
+def _escapes(st, L):
+    """the list bound to local L may become reachable under another name"""
+    if not _mentions(st, L):
+        return False
+    if isinstance(st, ast.Assign):
+        v = st.value
+        if isinstance(v, ast.Name) and v.id == L:
+            return True
+        if any(not isinstance(t, ast.Name) for t in st.targets) and _mentions(v, L):
+            # stored into an attribute / item: still the same object there
+            return not (isinstance(v, ast.Call) and isinstance(v.func, ast.Name)
+                        and v.func.id in _NO_ALIAS_CALLS)
+    for n in ast.walk(st):
+        if isinstance(n, ast.Call):
+            fn = n.func
+            if isinstance(fn, ast.Attribute) and isinstance(fn.value, ast.Name) and \
+                    fn.value.id == L:
+                continue
+            direct = [a for a in list(n.args) + [k.value for k in n.keywords]
+                      if (isinstance(a, ast.Name) and a.id == L) or
+                      (isinstance(a, ast.Starred) and False)]
+            if direct and not (isinstance(fn, ast.Name) and fn.id in _NO_ALIAS_CALLS):
+                return True
+        if isinstance(n, (ast.List, ast.Tuple, ast.Set, ast.Dict)) and \
+                isinstance(getattr(n, 'ctx', ast.Load()), ast.Load):
+            elts = list(getattr(n, 'elts', [])) + list(getattr(n, 'values', []) or [])
+            if any(isinstance(e, ast.Name) and e.id == L for e in elts):
+                return True
+        if isinstance(n, (ast.Return, ast.Yield)) and isinstance(n.value, ast.Name) \
+                and n.value.id == L:
+            return True
+    return False
 
 
 def _has_fill_loop(block):
@@ -466,6 +513,52 @@ def _any_all(block, later_reads=None):
                         break
                 if changed and block[j] is not st:
                     j += 1
+                    continue
+            # terminating form: for x in IT: if C: A; return/raise  (A, the
+            # returned value do not mention x)  ==  if any(C for x in IT): A; return
+            if not st.orelse and inner.body and \
+                    isinstance(inner.body[-1], (ast.Return, ast.Raise)):
+                used = set()
+                for a_ in inner.body:
+                    used |= _root_names(a_)
+                later = later_reads(j) if later_reads is not None else tnames
+                if not (tnames & used) and not (tnames & later) and not any(
+                        isinstance(n, (ast.Break, ast.Continue))
+                        for a_ in inner.body for n in ast.walk(a_)):
+                    new = ast.copy_location(ast.If(
+                        test=_call('any', _genexp(inner.test, st.target, st.iter)),
+                        body=inner.body, orelse=[]), st)
+                    ast.fix_missing_locations(new)
+                    block[j] = new
+                    changed = True
+                    j += 1
+                    continue
+            # flag form: f = False; for x in IT: if C: f = True; break
+            if not st.orelse and len(inner.body) == 2 and isinstance(inner.body[1], ast.Break) \
+                    and isinstance(inner.body[0], ast.Assign) and \
+                    len(inner.body[0].targets) == 1 and \
+                    isinstance(inner.body[0].targets[0], ast.Name) and \
+                    _is_const(inner.body[0].value, True):
+                flag = inner.body[0].targets[0].id
+                k = j - 1
+                while k >= 0 and not _mentions(block[k], flag):
+                    k -= 1
+                later = later_reads(j) if later_reads is not None else tnames
+                if k >= 0 and isinstance(block[k], ast.Assign) and \
+                        len(block[k].targets) == 1 and \
+                        isinstance(block[k].targets[0], ast.Name) and \
+                        block[k].targets[0].id == flag and \
+                        _is_const(block[k].value, False) and flag not in tnames and \
+                        not _mentions(inner.test, flag) and not _mentions(st.iter, flag) \
+                        and not (tnames & later):
+                    new = ast.copy_location(ast.Assign(
+                        targets=[ast.Name(id=flag, ctx=ast.Store())],
+                        value=_call('any', _genexp(inner.test, st.target, st.iter)),
+                        type_comment=None), st)
+                    ast.fix_missing_locations(new)
+                    block[j] = new
+                    del block[k]
+                    changed = True
                     continue
             # break/else form
             if inner.body and isinstance(inner.body[-1], ast.Break):
